@@ -58,7 +58,7 @@ fn validation_fingerprint(schema: &Schema, ps: &PolicySet) -> Vec<String> {
 }
 
 fn case(t: &mut Tape, rec: &mut Rec<'_>) {
-    let o = SchemaOpts { multi_ns: true, ..SchemaOpts::default() };
+    let o = SchemaOpts { multi_ns: true, shadow: true, ..SchemaOpts::default() };
     let rs = s::gen_schema(t, &o);
     let commons = gen_commons(t, &rs);
     let (j, c) = semit::with_commons(&commons, || (semit::schema_json(&rs, Some(t)), semit::schema_cedar(&rs, Some(t))));
@@ -66,6 +66,7 @@ fn case(t: &mut Tape, rec: &mut Rec<'_>) {
     rec.nontrivial = multi_ns || !commons.is_empty() || rs.entity_types.iter().any(|e| e.enum_ids.is_some()) || c.contains('"');
     rec.label_if(multi_ns, "multi-namespace");
     rec.label_if(!commons.is_empty(), "common-types");
+    rec.label_if(rs.entity_types.iter().any(|e| ["String", "Long", "Bool", "ipaddr"].contains(&split_name(&e.name).1.as_str())), "shadowed-builtin");
     rec.label_if(rs.entity_types.iter().any(|e| e.enum_ids.is_some()), "enum");
     rec.label_if(rs.entity_types.iter().any(|e| e.tags.is_some()), "tags");
     rec.set_key(&(j.to_string(), c.clone()));
@@ -194,6 +195,6 @@ pub fn property() -> Property {
                Oracle: both emissions load to equal schemas; to_cedarschema of the JSON fragment and to_json_value of the Cedar fragment load to a schema equal to their source (translation errors are counted, not judged); policy validation, entity validation and request validation give identical verdicts under all. \
                Non-trivial = >=2 namespaces, a common type, an enum or a quoted identifier.",
         assumptions: &["harness schema emitters (cross-checked against each other by the cross-syntax oracle)", "ValidatorSchema PartialEq, backed by behavioural comparison"],
-        subs: vec![SubCheck { name: "translate", cases: (30_000, 600_000), tape_len: 2500, run: case, min_labels: &[("multi-namespace", 3000), ("common-types", 6000), ("enum", 4000), ("tags", 6000), ("json->cedar:ok", 20_000), ("cedar->json:ok", 20_000)] }],
+        subs: vec![SubCheck { name: "translate", cases: (30_000, 600_000), tape_len: 2500, run: case, min_labels: &[("multi-namespace", 3000), ("common-types", 6000), ("enum", 4000), ("tags", 6000), ("shadowed-builtin", 3000), ("json->cedar:ok", 20_000), ("cedar->json:ok", 20_000)] }],
     }
 }
